@@ -359,8 +359,18 @@ func (ex *Exec) convert(x Val, from, to types.Type) Val {
 			return Str{B: out}
 		case *types.Slice:
 			return v
+		case *types.Array: // slice to array (Go 1.20): a copy of the first N elements
+			n := int(d.Len())
+			if v.Len < n {
+				ex.gopanic("explicit", fmt.Sprintf("runtime error: cannot convert slice with length %d to array or pointer to array with length %d", v.Len, n))
+			}
+			out := make(Struct, n)
+			copy(out, v.elems()[:n])
+			return out
 		case *types.Pointer: // slice to array pointer
-			_ = d
+			if at, ok := d.Elem().Underlying().(*types.Array); ok && v.Len < int(at.Len()) {
+				ex.gopanic("explicit", fmt.Sprintf("runtime error: cannot convert slice with length %d to array or pointer to array with length %d", v.Len, at.Len()))
+			}
 			unsupported("slice to array pointer conversion")
 		}
 	case Ptr, *MapObj, Closure, Struct, Bool, nil, Iface:
